@@ -55,8 +55,14 @@ FirstMatch(cfg, s, k) ==
   LET idx == {i \in 1..Len(s.reg) : Matches(cfg, s.reg[i], k)}
   IN IF idx = {} THEN "" ELSE s.reg[CHOOSE i \in idx : \A j \in idx : i <= j]
 
+(* the default lookup function yields "" for a request without a key or with a key that is no string: such requests  *)
+(* belong to the partition registered under the empty name, if there is one                                          *)
+LookupKey(k) == IF k \in {"<none>", "<int>"} THEN "" ELSE k
+NameBin(cfg, s, n) ==
+  LET c == {o \in Range(s.reg) : cfg.objs[o].name = n}
+  IN IF c = {} THEN UNKNOWN ELSE CHOOSE o \in c : TRUE
 LookupBin(cfg, s, k) ==
-  LET c == {o \in Range(s.reg) : cfg.objs[o].name = k}
+  LET c == {o \in Range(s.reg) : cfg.objs[o].name = LookupKey(k)}
   IN IF c = {} THEN UNKNOWN ELSE CHOOSE o \in c : TRUE
 
 BinOf(cfg, s, k) == IF cfg.kind = "lookup" THEN LookupBin(cfg, s, k) ELSE FirstMatch(cfg, s, k)
@@ -120,7 +126,7 @@ Filter(seq, P(_)) == SelectSeq(seq, P)
 (* predicate: RemovePartitionsMatching(ctx with key k) -> (removed objects, any)            *)
 Remove(cfg, s, k) ==
   IF cfg.kind = "lookup"
-  THEN LET b == LookupBin(cfg, s, k) IN
+  THEN LET b == NameBin(cfg, s, k) IN   \* RemovePartition takes the name itself
        IF b = UNKNOWN THEN [st |-> s, res |-> [ok |-> FALSE, busy |-> 0]]
        ELSE [st |-> [s EXCEPT !.reg = SelectSeq(@, LAMBDA x : x # b)],
              res |-> [ok |-> TRUE, busy |-> s.ob[b]]]
